@@ -20,7 +20,7 @@ ASSUMPTIONS = [
 ]
 BUDGET = {"quick": 85, "thorough": 900}
 ROUNDS = {"thorough": 16}
-FLOORS = {"derivatives_compared": {"quick": 4000, "thorough": 40000}, "nonzero_derivatives": {"quick": 800, "thorough": 8000}, "densities": 30, "with_rescaling": 20, "switch_evaluations": {"quick": 4, "thorough": 16}}
+FLOORS = {"derivatives_compared": {"quick": 4000, "thorough": 40000}, "nonzero_derivatives": {"quick": 800, "thorough": 8000}, "densities": 30, "with_rescaling": 20, "switch_evaluations": {"quick": 4, "thorough": 16}, "scaled_up_rates": {"quick": 6, "thorough": 40}}
 
 
 def cases(tier, seed):
@@ -32,6 +32,12 @@ def cases(tier, seed):
             g = zoo.build(name, 0)
             for e in g["evals"]:
                 out.append({"graph": name, "eval": e, "seed": int(rng.integers(2**31)), "rescale": bool(e.startswith("like") and rep % 2 == 1)})
+    # fast birth-death processes over the depth of the tree (rate x time in the thousands: exp(A t) does not fit a double)
+    for i in range(8 if tier == "quick" else 64):
+        f = float([150.0, 400.0, 1200.0, 60.0][i % 4])
+        e = ["bd", "bdsk", "bdsk.edge", "bd"][i % 4]
+        sc = {"bd.lambda": f, "bd.mu": f, "bd.psi": f} if e == "bd" else ({"bdsk.delta": f} if e == "bdsk" else {"bdsk.edge.delta": f})
+        out.append({"graph": "time-ratio", "eval": e, "seed": int(rng.integers(2**31)), "rescale": False, "scale_leaves": sc})
     # trees large enough to underflow: gradient of the evaluation that switches to rescaling, and of the one after it
     models = ["JC69", "HKY", "GTR+W4", "HKY-states"]
     for i in range(6 if tier == "quick" else 24):
@@ -126,6 +132,9 @@ def run_case(case):
             # all entries equal (where optimisers and samplers are started): still an interior point, the density is smooth there
             dic[pid].tensor = torch.full_like(dic[pid].tensor, float(np.exp(rng.normal(0.5, 0.5))))
             C["tied_vectors"] = C.get("tied_vectors", 0) + 1
+    for pid, f in (case.get("scale_leaves") or {}).items():
+        dic[pid].tensor = dic[pid].tensor.detach() * f
+        C["scaled_up_rates"] = 1
     if case["rescale"]:
         for i, o in dic.items():
             if hasattr(o, "rescale") and hasattr(o, "threshold"):
